@@ -82,7 +82,7 @@ def lit(q):
     return ["lit", [q.numerator, q.denominator]]
 
 
-LEVEL = {"+": 1, "-": 1, "*": 2, "/": 2}
+LEVEL = {"+": 1, "-": 1, "*": 2, "/": 2, ">": 0, "<": 0}
 
 
 def render(e, parent=0, right=False):
@@ -102,6 +102,12 @@ def render(e, parent=0, right=False):
         return "der(%s)" % render(e[1])
     if t == "neg":
         return "(-%s)" % render(e[1], 3)
+    if t == "fn":
+        return "%s(%s)" % (e[1], render(e[2]))
+    if t == "if":
+        return "(if %s then %s else %s)" % (render(e[1]), render(e[2]), render(e[3]))
+    if t == "idx2":
+        return "%s[%d,%d]" % (e[1], e[2], e[3])
     if t == "op":
         lv = LEVEL[e[1]]
         txt = "%s %s %s" % (render(e[2], lv, False), e[1], render(e[3], lv, True))
@@ -127,6 +133,12 @@ def walk_expr(e, f):
         walk_expr(e[2], f)
     elif t in ("der", "neg"):
         walk_expr(e[1], f)
+    elif t == "fn":
+        walk_expr(e[2], f)
+    elif t == "if":
+        walk_expr(e[1], f)
+        walk_expr(e[2], f)
+        walk_expr(e[3], f)
     elif t == "op":
         walk_expr(e[2], f)
         walk_expr(e[3], f)
@@ -169,6 +181,13 @@ def atoms(e, acc, loopvar=None):
             acc.append(("der", a[1]) if a[0] in ("var", "loopidx") else a)
     elif t == "neg":
         atoms(e[1], acc, loopvar)
+    elif t == "fn":
+        atoms(e[2], acc, loopvar)
+    elif t == "if":
+        for x in e[1:]:
+            atoms(x, acc, loopvar)
+    elif t == "idx2":
+        acc.append(("var", e[1]))
     elif t == "op":
         atoms(e[2], acc, loopvar)
         atoms(e[3], acc, loopvar)
@@ -323,13 +342,33 @@ class Gen:
             dis_pool += [["ref", nm] for nm in names] * 4
             value_pool += [["ref", nm] for nm in names]
 
+        def piecewise(x):
+            """x occurs only below a condition / rounding / sign: the value is piecewise constant in x, the
+            dependence is still there (a duration must not depend on a disallowed symbol in any way)."""
+            k = r.random()
+            a, b = r.sample([lit(1), lit(2), lit(Fraction(1, 2))] + allowed_pool[:3], 2)
+            # (if-expressions make the ANTLR parser about four times slower: the smaller share)
+            if k < 0.22:
+                return ["if", ["op", r.choice([">", "<"]), x, lit(r.choice([0, 1]))], a, b]
+            if k < 0.32:
+                return ["op", "*", a, ["if", ["op", ">", x, lit(1)], lit(1), lit(2)]]
+            if k < 0.7:
+                return ["op", "+", ["fn", r.choice(["floor", "ceil"]), x], lit(1)]
+            return ["op", "+", ["fn", "sign", x], lit(2)]
+
         def duration(force=None, depth=0):
+            d = duration0(force, depth)
+            return d
+
+        def duration0(force=None, depth=0):
             if force is None and self.mode != "free":
                 if self.mode == "single" and self.pending and r.random() < 0.5:
                     self.pending = False
                     one = (["ref", r.choice(self.elim_names)] if self.elim_names and r.random() < 0.75 else
                            r.choice(dis_pool)) if r.random() < 0.9 else delay(self.combine(self.pick(value_pool, 1, 1)),
                                                                           duration(False, 1))
+                    if one[0] != "delay" and r.random() < 0.25:
+                        one = piecewise(one)
                     leaves = self.pick(allowed_pool, 0, 2) + [one]
                     r.shuffle(leaves)
                     return self.combine(leaves)
@@ -342,7 +381,12 @@ class Gen:
                 if depth == 0 and r.random() < 0.12:
                     leaves.append(delay(self.combine(self.pick(value_pool, 1, 2)), duration(False, 1)))
                 else:
-                    leaves += self.pick(dis_pool, 1, 2)
+                    extra = self.pick(dis_pool, 1, 2)
+                    if r.random() < 0.12:
+                        extra = [piecewise(x) for x in extra]
+                    leaves += extra
+            elif leaves and r.random() < 0.08:
+                leaves[0] = piecewise(leaves[0])  # an allowed duration through a condition / rounding: accepted
             if not leaves:
                 return lit(2)
             r.shuffle(leaves)
@@ -358,7 +402,9 @@ class Gen:
             if s["dim"] or nm.startswith("s.") or nm.startswith("z"):
                 continue
             if s["cat"] == "state":
-                eqs.append(["eq", ["der", ["ref", nm]], self.combine(self.pick(value_pool, 1, 3))])
+                rhs0 = self.combine(self.pick(value_pool, 1, 3))
+                # (simp: `der(x) = d1` would let eliminable_variable_expression define d1 by this equation)
+                eqs.append(["eq", ["der", ["ref", nm]], not_bare(rhs0) if simp else rhs0])
             elif s["cat"] == "alg" and "def" not in s:
                 rhs0 = self.combine(self.pick(value_pool, 1, 3))
                 eqs.append(["eq", ["ref", nm], not_bare(rhs0) if simp else rhs0])
@@ -429,6 +475,13 @@ class Gen:
             body.append(["eq", zi, zr])
             r.shuffle(body)
             eqs.insert(r.randint(0, len(eqs)), ["for", "i", 1, n, body])
+        if self.stream == "main" and r.random() < 0.3:
+            # a 2-D algebraic array (never expanded: no expand_vectors), defined element by element
+            S["gm"] = {"cat": "alg", "dim": 4}
+            decls.append("Real gm[2,2];")
+            for rr in (1, 2):
+                for cc in (1, 2):
+                    eqs.insert(r.randint(0, len(eqs)), ["eq", ["idx2", "gm", rr, cc], self.combine(self.pick(value_pool, 1, 2))])
         zdecl = ["Real %s;" % nm for nm in S if nm.startswith("z") and not S[nm]["dim"]]
         lines = []
         if nested:
@@ -562,8 +615,19 @@ def evaluate(e, pt, pi, lv, depth=0):
         return pt.get("der(%s)" % x[1], int(evaluate(x[2], pt, pi, lv, depth)), depth)
     if t == "neg":
         return -evaluate(e[1], pt, pi, lv, depth)
+    if t == "fn":
+        import math
+        x = evaluate(e[2], pt, pi, lv, depth)
+        return {"floor": lambda: Fraction(math.floor(x)), "ceil": lambda: Fraction(math.ceil(x)),
+                "sign": lambda: Fraction((x > 0) - (x < 0)), "abs": lambda: abs(x)}[e[1]]()
+    if t == "if":
+        return evaluate(e[2] if evaluate(e[1], pt, pi, lv, depth) != 0 else e[3], pt, pi, lv, depth)
+    if t == "idx2":
+        return pt.get(e[1], (e[3] - 1) * 2 + e[2], depth)
     if t == "op":
         a, b = evaluate(e[2], pt, pi, lv, depth), evaluate(e[3], pt, pi, lv, depth)
+        if e[1] in (">", "<"):
+            return Fraction(int(a > b if e[1] == ">" else a < b))
         return {"+": a + b, "-": a - b, "*": a * b, "/": a / b if b != 0 else None}[e[1]]
     if t == "delay":
         if e[3] not in pi:
@@ -705,19 +769,40 @@ def ser_expr(n):
         if isinstance(op, ast.ComponentRef):
             if op.name == "delay" and len(n.operands) == 2 and not op.child:
                 return {"t": "delay", "a": ser_expr(n.operands[0]), "d": ser_expr(n.operands[1])}
+            if op.name in ("floor", "ceil", "sign", "abs") and len(n.operands) == 1 and not op.child:
+                return {"t": "un", "f": op.name, "e": ser_expr(n.operands[0])}
             raise Unsupported("call " + op.name)
         if op == "der" and len(n.operands) == 1:
             return {"t": "der", "e": ser_expr(n.operands[0])}
         if op == "-" and len(n.operands) == 1:
             return {"t": "neg", "e": ser_expr(n.operands[0])}
-        if op in ("+", "-", "*", "/") and len(n.operands) == 2:
+        if op in ("+", "-", "*", "/", ">", "<", ">=", "<=") and len(n.operands) == 2:
             return {"t": "bin", "op": op, "a": ser_expr(n.operands[0]), "b": ser_expr(n.operands[1])}
         raise Unsupported("operator %r" % (op,))
+    if isinstance(n, ast.IfExpression) and len(n.conditions) == 1 and len(n.expressions) == 2:
+        return {"t": "ite", "c": ser_expr(n.conditions[0]), "a": ser_expr(n.expressions[0]), "b": ser_expr(n.expressions[1])}
     raise Unsupported(type(n).__name__)
 
 
-def ser_eq(q):
+def has_delay(n):
+    """Does an AST (sub)tree contain a delay() call?"""
+    t = H.ser_node(n)
+
+    def rec(x):
+        if x["k"] == "Expression" and (x["n"] == "delay" or (x["c"] and x["c"][0]["k"] == "ComponentRef"
+                                                              and x["c"][0]["n"] == "delay" and x["n"] == "")):
+            return True
+        return any(rec(c) for c in x["c"])
+    return rec(t)
+
+
+def ser_eq(q, in_loop=False):
     from pymoca import ast
+    if isinstance(q, ast.Equation) and not in_loop and not has_delay(q):
+        # an equation outside for-loops without a delay() contributes nothing to the delay translation: it may use
+        # constructs outside the modelled fragment (matrices, functions, …)
+        z = {"t": "lit", "n": 0, "d": 1}
+        return {"t": "eq", "l": z, "r": z}
     if isinstance(q, ast.Equation):
         if isinstance(q.left, list) or isinstance(q.right, list):
             raise Unsupported("tuple equation")
@@ -729,7 +814,7 @@ def ser_eq(q):
         lo, hi, st = sl.start, sl.stop, sl.step
         if not all(isinstance(x, ast.Primary) and isinstance(x.value, int) for x in (lo, hi, st)) or st.value != 1:
             raise Unsupported("for range")
-        return {"t": "for", "var": q.indices[0].name, "lo": lo.value, "hi": hi.value, "body": [ser_eq(x) for x in q.equations]}
+        return {"t": "for", "var": q.indices[0].name, "lo": lo.value, "hi": hi.value, "body": [ser_eq(x, True) for x in q.equations]}
     raise Unsupported(type(q).__name__)
 
 
@@ -774,6 +859,10 @@ def spec_json(e):
         return {"t": "neg", "e": spec_json(e[1])}
     if t == "op":
         return {"t": "bin", "op": e[1], "a": spec_json(e[2]), "b": spec_json(e[3])}
+    if t == "fn":
+        return {"t": "un", "f": e[1], "e": spec_json(e[2])}
+    if t == "if":
+        return {"t": "ite", "c": spec_json(e[1]), "a": spec_json(e[2]), "b": spec_json(e[3])}
     raise HarnessError("no typed form for %r" % (e,))
 
 
@@ -820,6 +909,10 @@ def substitution_of(case, model):
             return ["idx", e[1], resolve(e[2], depth)]
         if t == "neg":
             return ["neg", resolve(e[1], depth)]
+        if t == "fn":
+            return ["fn", e[1], resolve(e[2], depth)]
+        if t == "if":
+            return ["if"] + [resolve(x, depth) for x in e[1:]]
         if t == "op":
             return ["op", e[1], resolve(e[2], depth), resolve(e[3], depth)]
         raise HarnessError("bad substitution value %r" % (e,))
@@ -1013,15 +1106,20 @@ def run(ctx):
     plan = [("f1", 4 if quick else 40), ("f2", 3 if quick else 30), ("cache", 25 if quick else 300),
             ("simp", 90 if quick else 1500), ("main", 220 if quick else 4000)]
     import random
-    for stream, n in plan:
-        for i in range(n):
-            if ctx.time_left() < 0:
-                ctx.notes.append("stream %s stopped by the time budget after %d cases" % (stream, i))
-                break
-            case = Gen(ctx.rng, stream).make()
-            verdict = check_case(ctx, case, drv, random.Random(ctx.rng.getrandbits(64)))
-            ctx.case(case, nontrivial=nontrivial(case))
-            buckets(ctx, case, verdict)
+    # the known-finding streams first; the others interleaved (shuffled), so that a run cut short by the time budget
+    # on a loaded machine still covers every stream in proportion
+    schedule = [st for st, n in plan[:2] for _ in range(n)]
+    rest = [st for st, n in plan[2:] for _ in range(n)]
+    ctx.rng.shuffle(rest)
+    schedule += rest
+    for i, stream in enumerate(schedule):
+        if ctx.time_left() < 0:
+            ctx.notes.append("stopped by the time budget after %d of %d cases" % (i, len(schedule)))
+            break
+        case = Gen(ctx.rng, stream).make()
+        verdict = check_case(ctx, case, drv, random.Random(ctx.rng.getrandbits(64)))
+        ctx.case(case, nontrivial=nontrivial(case))
+        buckets(ctx, case, verdict)
 
 
 def replay(ctx, payload):
